@@ -154,6 +154,24 @@ class SNum:
     def __pos__(self):
         return self
 
+    def conjugate(self):
+        return self
+
+    def __round__(self, ndigits=None):
+        if ndigits is not None:
+            raise SymbolicEscape("round(x, ndigits) of a symbolic number")
+        return wrap(round_half_even(self.e))
+
+    def __floor__(self):
+        return wrap(z3.ToInt(term(self)))
+
+    def __ceil__(self):
+        return wrap(-z3.ToInt(-term(self)))
+
+    def __trunc__(self):
+        x = term(self)
+        return wrap(z3.If(x >= 0, z3.ToInt(x), -z3.ToInt(-x)))
+
     def __abs__(self):
         return wrap(z3.If(self.e >= 0, self.e, -self.e))
 
@@ -220,6 +238,16 @@ class SNum:
 
 def _mul(a, b):
     return a * b
+
+
+def round_half_even(x):
+    """Python's round(x) (banker's rounding) as a z3 Int term"""
+    if z3.is_int(x):
+        return x
+    f = z3.ToInt(x)                       # floor
+    frac = x - z3.ToReal(f)
+    half = z3.RealVal("1/2")
+    return z3.If(frac < half, f, z3.If(frac > half, f + 1, z3.If(f % 2 == 0, f, f + 1)))
 
 
 def _div(a, b):
